@@ -134,7 +134,7 @@ Section Reader.
         let type := N.land (get32 (lk_be st) dp 12) 3 in
         let pgsz := lk_page_size st in
         if type =? DUMP_COMPRESSED then
-          if MAX_PAGE_SIZE <? size then (Err ERR_CORRUPT, st) else
+          if pgsz <? size then (Err ERR_CORRUPT, st) else      (* the buffer holds one page *)
           let buf := rd 0 (off + 16) size in
           if lk_compression st =? COMPRESS_RLE then
             match uncompress_rle buf pgsz with
